@@ -12,6 +12,8 @@ FAMILIES_ALL = ["shared-weights", "stripe-resize", "tiny", "mixed-width", "exact
 def make_net(family, nseed, case=None):
     if family == "hostile":
         case = case or {}
+        if case.get("hkind") == "zoo":
+            return hostile.fam_zoo(nseed, case.get("hpick", 0))
         return hostile.fam_hostile(nseed, case.get("hkind"), case.get("hpick"))
     return netgen.make(family, nseed)
 
